@@ -14,6 +14,8 @@ constexpr bool w_distinct() {
     return true;
 }
 static_assert(w_distinct(), "two of n_queue consecutive tickets map to the same lane");
+//@ expect-pass infinite_capacity_is_large : set_capacity(negative) means "unbounded": the constant used for it must be a huge positive number
+static_assert(tbb::concurrent_bounded_queue<int>::infinite_capacity > (std::ptrdiff_t(1) << 40), "infinite_capacity is not large: set_capacity(-1) makes the queue permanently full");
 //@ expect-fail queue_copy_assign_rep : the queue representation must not be copy-assignable (control for the harness)
 void f(W_rep& a, W_rep& b) { a = b; }
 //@ end
